@@ -9,11 +9,11 @@ BASE_OFF = "cd /repo && cargo test --workspace --no-fail-fast --offline"
 PBT = "property-based testing (proptest, seeded, shrinking)"
 CLAIMED = {
  "C01": (PBT + ": differential against a reference Push interpreter written from the documented semantics - single instructions on boundary states, generated programs in lock-step and under a sweep of step limits; machines are set up half of the time through the builder (with_*_values, with_*_max_size, inputs with short, long and nearly identical names) and half directly on the stacks",
-         "Exploration: hundreds of thousands (quick) to millions (thorough) of generated single-instruction states and programs; every executed instruction and every sampled step limit compared with the reference model (all four stacks, output, outcome kind); a stack-churn generator keeps stacks at their boundaries; flat blocks of up to hundreds of instructions and initial stacks near the maximum. Does not establish absence.",
+         "Exploration: hundreds of thousands (quick) to millions (thorough) of generated single-instruction states and programs; every executed instruction and every sampled step limit compared with the reference model (all four stacks, output, outcome kind); a stack-churn generator keeps stacks at their boundaries; flat blocks of up to hundreds of instructions and initial stacks near the maximum; 'retry' programs in which an instruction that faults for its values recurs at the same depths; input names of different lengths and names that are prefixes of each other. Does not establish absence.",
          "Trusted: the reference model in harness/src/model/vm.rs (DESIGN Appendix A), std Display and `as` int->float. Double faults and Power with exponent > u32::MAX accept two outcomes.",
          "DESIGN.md §2 C01, Appendix A"),
  "C02": (PBT + ": model-free before/after state equality on every failing instruction, exhaustive enumeration of stack shapes per instruction, L vs L+1 step-limit metamorphic relation on the real interpreter loop, failing steps inside generated and stack-churn programs compared step by step",
-         "Exploration with an exhaustive component: for every instruction all 4096 stack shapes (sizes 0..3 x slack 0/1 per stack) are enumerated (values random), and all sizes again with the maximum of one stack (or of all four) lowered by 1 or 2 below the number of elements it holds (over-full destinations), plus generated boundary states and programs. Does not establish absence for values.",
+         "Exploration with an exhaustive component: for every instruction all 4096 stack shapes (sizes 0..3 x slack 0/1 per stack) are enumerated (values random), and all sizes again with the maximum of one stack (or of all four) lowered by 1 or 2 below the number of elements it holds (over-full destinations), plus generated boundary states and programs; in flat programs every element that fails recoverably when reached is replaced by an explicit Noop (both programs must end in the same state); the state carried by a run's first fatal error is compared with the state before the failing element. Does not establish absence for values.",
          "Trusted: PushState's Eq (all stacks, inputs, output cursor, limits) plus bitwise float comparison.",
          "DESIGN.md §2 C02"),
  "C03": (PBT + ": growth/looping/nesting/blow-up program templates under tiny stack limits and large step limits, differential reference model plus invariants (no panic, sizes <= maxima, only overflow aborts, exactly min(limit, steps-to-halt) steps), watchdog for hangs",
@@ -33,11 +33,11 @@ CLAIMED = {
          "Trusted: rand 0.9 StdRng; the coverage check assumes every admissible segment has probability >= 1/(len+1)^2.",
          "DESIGN.md §2 C10"),
  "C11": (PBT + ": position-tagged genomes through WithRate / WithOneOverLength / all three Umad constructors with a generated random stream; structural parse of the child (slot grammar P0 N0 P1 N1 ...), generator-provenance of new genes, exact degenerate-rate cases",
-         "Exploration: a million (quick) to tens of millions (thorough) generated mutations over four flip genome types and three UMAD genome types, lengths 0..40/120 and, in a second pass, up to 700/6000.",
+         "Exploration: a million (quick) to tens of millions (thorough) generated mutations over five flip genome types and four UMAD genome types (incl. a user-defined genome with its own Linear / FromIterator / IntoIterator impls), lengths 0..40/120 and, in a second pass, up to 700/6000.",
          "Trusted: the harness's slot-grammar parser; Bitstring UMAD is checked on sizes only (bits cannot carry tags).",
          "DESIGN.md §2 C11"),
  "C12": ("seeded statistical property testing: exact-law binomial counts per (operator, configuration) decided by a Chernoff/KL bound (alpha 1e-12 per count) with a confirmation stage; p = 0 and p = 1 decided exactly",
-         "Exploration over the random stream: ~290 configurations x 2e6 (quick) / 4e7 (thorough) seeded trials, ~9700 statistics (incl. per-position rates and lag-agreement statistics on genomes of 130 and 600 genes) each compared with its exactly known law (plus a window check for very small positive rates, the empty-genome addition rate of the three Umad constructors, and BoolGenerator directly, inside a collection generator and re-tuned through its public fields after use); false-alarm probability < 1e-15 per run; detects rate errors >= ~0.003 (quick) at p = 0.5.",
+         "Exploration over the random stream: ~290 configurations x 2e6 (quick) / 4e7 (thorough) seeded trials, ~9700 statistics (incl. per-position rates and lag-agreement statistics on genomes of 130 and 600 genes) each compared with its exactly known law (plus a window check for very small positive rates, the empty-genome addition rate of the three Umad constructors, and BoolGenerator directly, inside a collection generator and re-tuned through its public fields after use; Plushy parents with close markers at the front, inside and at the end); false-alarm probability < 1e-15 per run; detects rate errors >= ~0.003 (quick) at p = 0.5.",
          "Trusted: rand 0.9 StdRng / Bernoulli; independence of the trials counted together (only disjoint gene pairs are pooled). Not detectable: < vs <=, f32 rounding of a rate, deviations below the stated resolution.",
          "DESIGN.md §1 Statistical method, §2 C12"),
  "C06": (PBT + ": generated populations x generated selector composition trees (real WeightedPair / DynWeighted / reference / erased nodes) with a generated random stream; pointer-identity membership oracle and a small model of which documented errors a configuration justifies",
@@ -45,27 +45,27 @@ CLAIMED = {
          "Trusted: the harness's delegating enums (combinator nodes are the real types) and its model of justified errors; Ok(member) is also accepted when lexicase is configured with more cases than results.",
          "DESIGN.md §2 C06"),
  "C07": (PBT + " for per-draw invariants (sample recovered from logged comparisons) plus seeded statistical tests of the k-subset uniformity law and the enumerated winner law (Chernoff/KL, alpha 1e-12, confirmation stage)",
-         "Exploration: hundreds of thousands of generated (population, k, stream) cases; for every n <= 7, k <= n the full subset and winner laws against 1e6 (quick) / 1e7 (thorough) seeded draws; for 14 larger configurations (n up to 300, k up to 40) and populations of 70000 / 2^20+3 members the inclusion, pair co-inclusion and pooled winner-rank laws; one selector value alternating between (or first used on) populations of other sizes, larger and smaller; agreement of successive winners; the named constructors; a quarter of the per-draw cases over a user-defined population type with strangers behind its live prefix.",
+         "Exploration: hundreds of thousands of generated (population, k, stream) cases; for every n <= 7, k <= n the full subset and winner laws against 1e6 (quick) / 1e7 (thorough) seeded draws; for 14 larger configurations (n up to 300, k up to 40) and populations of 70000 / 2^20+3 members the inclusion, pair co-inclusion and pooled winner-rank laws; one selector value alternating between (or first used on) populations of other sizes, larger and smaller; agreement of successive winners; the named constructors; a quarter of the per-draw cases over a user-defined population type with strangers behind its live prefix; the same claims on the library's own EcIndividuals ordered by TestResults with result vectors of different lengths.",
          "Trusted: rand StdRng; the sampled subset is observed through the individuals' Ord::cmp, so an implementation comparing more than k individuals is judged by the winner law only.",
          "DESIGN.md §2 C07"),
  "C08": ("seeded statistical property testing against the exact lexicase law obtained by enumerating all case orders with an independent definition of 'better'; per-draw exact support check (winner has positive probability, never Pareto-dominated)",
-         "Exploration: 400 (quick) / 8000 (thorough) generated result matrices (up to 8 x 5) plus 12 / 120 larger ones (up to 100 x 8) in both polarities x 4e5 / 2e6 seeded draws each; two fifths of them with fewer configured cases than results, a quarter with grouped per-case results (TestResults as the per-case type, ordered by total); matrices with up to 40 cases against an analytic law (specialists); agreement of successive selections; elites of 1025..70000 (thorough ..98304) exact ties (final choice uniform: quarters and thirds); 200000 / 4 million generated per-draw cases under generated random streams (every winner survives under some order of the considered cases; the selector value may have failed on another population just before).",
+         "Exploration: 400 (quick) / 8000 (thorough) generated result matrices (up to 8 x 5) plus 12 / 120 larger ones (up to 100 x 8) in both polarities x 4e5 / 2e6 seeded draws each; two fifths of them with fewer configured cases than results, a quarter with grouped per-case results (TestResults as the per-case type, ordered by total); matrices with up to 40 cases against an analytic law (specialists); agreement of successive selections; elites of 1025..70000 (thorough ..98304) exact ties (final choice uniform: quarters and thirds); 200000 / 4 million generated per-draw cases under generated random streams (every winner survives under some order of the considered cases; the selector value may have failed on another population just before); a third of the law matrices and half of the tie groups through the type-erased form of the selector.",
          "Trusted: the harness's enumerator. For a configured count below the number of results every reading of 'the considered cases' (any fixed subset of that size, or a random one) is accepted.",
          "DESIGN.md §2 C08"),
  "C13": (PBT + " for per-selection invariants through marker members (exactly one member used, never weight 0, construction rejected iff a partial sum overflows) plus seeded statistical tests of member frequencies = w_i / sum(w) over all binary tree shapes up to 5 leaves, real chains and dynamic lists (up to 300 members, also lists used for selections while they are still being extended)",
-         "Exploration: hundreds of thousands of generated weighted shapes (incl. selection from an empty population: the chosen member's own error, never a weight-0 member's) and ~200 law configurations x 4e5 (quick) / 5e6 (thorough) draws, dynamic lists also with weights of 2^32..2^61; agreement of successive selections.",
+         "Exploration: hundreds of thousands of generated weighted shapes (incl. selection from an empty population: the chosen member's own error, never a weight-0 member's) and ~200 law configurations x 4e5 (quick) / 5e6 (thorough) draws, dynamic lists also with weights of 2^32..2^61, statically typed chains whose members are chains wrapped with a weight of their own (law = product of the shares along the path); agreement of successive selections.",
          "Trusted: rand Bernoulli / choose_weighted; the payload of WeightSumOverflow is not compared.",
          "DESIGN.md §2 C13"),
  "C09": (PBT + ": generated (population kind Vec / VecDeque / BTreeSet / HashSet, population size, rounds, serial/parallel, rayon pool size, failure positions, delay script) histories with an instrumented child maker; invariants over the history (atomic replacement, all-or-nothing on failure, every call saw the old population, pairwise distinct random words)",
-         "Exploration: 12000 (quick) / 400000 (thorough) generated multi-round histories over pool sizes 1..16, sizes 0..1000 and four population kinds (the set kinds merge equal children, so the size can change between steps) plus Vec populations of individuals with 5000 / 40000 / 70000 bytes of inline payload. Children left over from failed attempts on the same population are admitted in the next successful step. Interleavings are perturbed by pool size and a delay script, not enumerated; this is the weakest claim of the set.",
+         "Exploration: 12000 (quick) / 400000 (thorough) generated multi-round histories over pool sizes 1..16, sizes 0..1000 and four population kinds (the set kinds merge equal children, so the size can change between steps) plus Vec populations of individuals with 5000 / 40000 / 70000 bytes of inline payload; in a fifth of the small cases the child maker steps a small generation of its own (nested steps). Children left over from failed attempts on the same population are admitted in the next successful step. Interleavings are perturbed by pool size and a delay script, not enumerated; this is the weakest claim of the set.",
          "Trusted: rayon; the thread generator's words are treated as pairwise distinct when children have live randomness (64-bit collisions are negligible).",
          "DESIGN.md §2 C09"),
  "C14": (PBT + ": generated composition trees of the real combinators around logging probe operators, differential against a reference interpreter of the tree (call order, inputs, words drawn at each stream offset, stop at first failure, failing part recovered from the error); wrapper operators against the wrapped parts run by hand from equal generator states; statically typed compositions whose source() and diagnostic_source() chains must show the same levels down to the failing probe",
-         "Exploration: hundreds of thousands (quick) to millions (thorough) of generated compositions (depth <= 6) and wrapper pipelines, values up to 150000-element vectors and 4 KiB outputs, zero-sized outputs; sixteen kinds of statically typed chains (tuples, arrays, Then, And, Map, Repeat, references, wide and unit payloads, zero-sized error types incl. the library's own EmptyPopulation under apply_twice).",
+         "Exploration: hundreds of thousands (quick) to millions (thorough) of generated compositions (depth <= 6) and wrapper pipelines, values up to 150000-element vectors and 4 KiB outputs, zero-sized outputs; sixteen kinds of statically typed chains (tuples, arrays, Then, And, Map, Repeat, references, wide and unit payloads, zero-sized error types incl. the library's own EmptyPopulation under apply_twice, then / and chains as the mapped operator of a Vec map with a log of the order of calls).",
          "Trusted: the reference interpreter; the failing part is read from Debug/Display text of the crate's error types (fields private) and reported unobservable if that text changes.",
          "DESIGN.md §2 C14"),
  "C15": (PBT + ": order laws and operator agreement on exhaustive extreme triples and generated values, result vectors (built through 12 kinds of source iterator, incl. imprecise size hints) vs independently computed totals (i64 exactly; f64 exactly for exactly summable values and within the rounding bound otherwise; i32, u64), individuals vs their results, generator/scorer provenance with a recording scorer",
-         "Exploration with an exhaustive component: all 343 triples over the 7 extreme i64 values; hundreds of thousands (quick) to millions (thorough) of generated cases; result counts at powers of two and block sizes; further result types (f64 scores and errors with exactly summable and general values, i32, u64) and partially ordered results inside individuals; float collections compared with another collection, their clone and themselves.",
+         "Exploration with an exhaustive component: all 343 triples over the 7 extreme i64 values; hundreds of thousands (quick) to millions (thorough) of generated cases; result counts at powers of two and block sizes; further result types (f64 scores and errors with exactly summable and general values, i32, u64) and partially ordered results inside individuals; float collections compared with another collection, their clone and themselves; clone() and clone_from() of collections, individuals and populations; genome makers that fail on their first application only.",
          "Trusted: i128 reference sums; TestResults == is not required to agree with cmp.",
          "DESIGN.md §2 C15"),
  "C16": (PBT + ": call histories over a registry of operators, each call run twice from cloned instrumented generators (results, words consumed, next word, sequence of generator entry points used), repeats within a history, a third run on another thread; Push programs run twice and with permuted input declaration order",
@@ -73,15 +73,15 @@ CLAIMED = {
          "Trusted: the word-counting generator wrapper around StdRng.",
          "DESIGN.md §2 C16"),
  "C17": ("generated compile probe (one erased flavour per line, cargo check JSON diagnostics) deciding existence of all 280 flavours, then " + PBT + ": concrete value vs every erased flavour from cloned instrumented generators (result identity, error text and downcast, words consumed, next word, sequence of next_u32 / next_u64 / fill_bytes(len) calls), with probe implementations that draw through every generator entry point",
-         "Exploration: all 280 (trait, pointer, auto-trait, error type) flavours are type-checked and each is exercised on thousands of generated cases; probes draw in 20 styles (every entry point, mixed widths, fill_bytes of odd lengths), selectors that draw, and erased calls nested inside erased calls with a forked generator.",
+         "Exploration: all 280 (trait, pointer, auto-trait, error type) flavours are type-checked and each is exercised on thousands of generated cases; probes draw in 20 styles (every entry point, mixed widths, fill_bytes of odd lengths), selectors that draw, erased calls nested inside erased calls with a forked generator, a zero-sized genome type through every mutator / recombinator / operator flavour, and a field-less child maker handed boxed (also zero-sized) selectors.",
          "Trusted: rustc diagnostics codes (E0277/E0599/E0271 = missing impl); the companion crate harness-dyn.",
          "DESIGN.md §2 C17"),
  "C18": (PBT + " for sizes and membership (counting / tagging element generator, all 14 conversion flavours + macro, pointer identity) plus seeded statistical tests of member frequencies = multiplicity / length",
-         "Exploration: sizes 0..300 (2000 thorough) plus boundary sizes to 5000 and 100000 once; 15 choice flavours x lengths 1..200 x 1e6 (quick) / 1e7 (thorough) draws, the Vec / slice flavours built once over 255..65537 members, sources of 25 and 33 million members, sources of 3 * 2^26 members (every 64th 32-bit word is rejected by an index sampler), member counts up to 2^33+1 with zero-sized members; agreement of successive samples; generator values resized after use; Bitstring::random / random_with_probability directly, once per run at 2^24+1, 2^25+1 and 2^26+2 bits.",
+         "Exploration: sizes 0..300 (2000 thorough) plus boundary sizes to 5000 and 100000 once; 15 choice flavours x lengths 1..200 x 1e6 (quick) / 1e7 (thorough) draws, the Vec / slice flavours built once over 255..65537 members, sources of 25 and 33 million members, sources of 3 * 2^26 members (every 64th 32-bit word is rejected by an index sampler), member counts up to 2^33+1 with zero-sized members; agreement of successive samples; generator values resized after use; Bitstring::random / random_with_probability directly, once per run at 2^24+1, 2^25+1 and 2^26+2 bits; num_choices() asked through seven reference flavours in an unoptimised child process (a forwarding impl that never returns overflows the stack there: violation; a time-out: inconclusive).",
          "Trusted: rand Uniform / Choose (the law is about how the crate uses them).",
          "DESIGN.md §2 C18"),
  "C19": ("seeded source generation + generated compile probes and a generated test program: builder call chains are produced from a model of the type-state automaton; must-compile / must-not-compile expectations are decided per line from cargo check JSON diagnostics, legal chains are executed and compared with the model's predicted state",
-         "Exploration: 6 (quick) / 30 (thorough) generated state structs in two variants plus PushState, 260 / 2500 classified call chains, 280+ / 4600+ executed legal chains per run; different seeds generate different structs and chains; the stack type is spelled by short, crate-qualified and absolute paths; value lists are also given as lazy iterators of 2^40 elements over tiny maxima (must be rejected or truncated without being drained); maxima of usize::MAX with second batches whose length added to the size does not fit in a usize; global resizes after a program was loaded.",
+         "Exploration: 6 (quick) / 30 (thorough) generated state structs in two variants plus PushState, 260 / 2500 classified call chains, 280+ / 4600+ executed legal chains per run; different seeds generate different structs and chains; the stack type is spelled by short, crate-qualified and absolute paths; value lists are also given as lazy iterators of 2^40 elements over tiny maxima (must be rejected or truncated without being drained); maxima of usize::MAX with second batches whose length added to the size does not fit in a usize; global resizes after a program was loaded; builder values overwritten by Default::default() at a later type state.",
          "Trusted: rustc diagnostics, the harness's automaton model; chains the statement does not decide are generated but not judged; failing chains are reported as generated (no shrinking - one chain is the unit).",
          "DESIGN.md §2 C19"),
 }
